@@ -272,6 +272,19 @@ func genRedactCase(r *rng.R) rcaseJSON {
 		s2 = genSecret(r, 1+r.Intn(16), "", "") // different length too
 	}
 	user := r.Pick(userPool)
+	hostOverride := ""
+	// the secret also occurs in the NON-secret parts: a redaction that searches for the password text instead of
+	// rendering the fields masks the wrong place (user `svc@corp` with password `svc`, host equal to the password)
+	switch r.Intn(8) {
+	case 0:
+		user = s1 + "@corp"
+	case 1:
+		user = "x" + s1 + "@" + s1
+	case 2:
+		user = s1
+	case 3:
+		hostOverride = s1
+	}
 	hasPass := !r.Chance(1, 6)
 	mk := func(s string) value {
 		ui := &uinfo{User: user, Pass: s, HasPass: hasPass}
@@ -295,6 +308,9 @@ func genRedactCase(r *rng.R) rcaseJSON {
 	v1, v2 := mk(s1), mk(s2)
 	if fn == 3 {
 		h, p := r.Pick(hostPool), r.Pick(portPool)
+		if hostOverride != "" {
+			h = hostOverride
+		}
 		v1.Hpus[0].Host, v1.Hpus[0].Port = h, p
 		v2.Hpus[0].Host, v2.Hpus[0].Port = h, p
 	}
@@ -383,11 +399,18 @@ func genDescribeCase(r *rng.R) fcaseJSON {
 	sAPI := genSecret(r, n, "", "@:")
 	sProxy := genSecret(r, n, forbidFlagProxy, ":%/")
 	sSite := genSecret(r, n, forbidCSV, "@:%")
+	userHasPw := r.Chance(1, 4)
+	if userHasPw {
+		sSite = genSecret(r, n, forbidCSV+":@", "%/")
+	}
 	sKey := genSecret(r, 24, forbidCSV+" ", "")
 	s2 := func(s, forbid string) string { return twin(r, s, forbid) }
 	tB, tA, tP, tS, tK := s2(sBasic, ""), s2(sAPI, ""), s2(sProxy, forbidFlagProxy), s2(sSite, forbidCSV), s2(sKey, forbidCSV)
 	ub, ua, up, us := r.Pick(userPool[:7]), r.Pick(userPool[:7]), r.Pick(userPool[:7]), r.Pick(userPool[:7])
 	host, port := r.Pick(hostPool), r.Pick(portPool)
+	if userHasPw {
+		us = sSite + "@corp" // ParseHostPortUser splits at the LAST '@' and the first ':': a user name may contain '@'
+	}
 	lvl := r.Pick([]string{"error", "info", "debug"})
 	include := func() bool { return r.Chance(3, 4) }
 	inc := [8]bool{include(), include(), include(), include(), include(), include(), include(), include()}
@@ -488,6 +511,15 @@ func main() {
 		nr, nf := 1500, 150
 		if thorough {
 			nr, nf = 12000, 1200
+		}
+		for _, x := range []struct{ user, p1, p2, host, port string }{
+			{"svc@corp", "svc", "tvc", "proxy.example.com", "3128"}, {"bob@example.com", "bob", "rob", "*", "0"},
+			{"a", "a", "b", "a", "80"}, {"pw", "pw", "qw", "pw@pw", "1"},
+		} {
+			mk := func(p string) value {
+				return value{Kind: "hpus", Hpus: []hpu{{uinfo{x.user, p, true}, x.host, x.port}}}
+			}
+			rcs = append(rcs, rcaseJSON{"redact", 3, mk(x.p1), mk(x.p2)})
 		}
 		for i := 0; i < nr; i++ {
 			rcs = append(rcs, genRedactCase(r))
